@@ -42,13 +42,25 @@ pub fn sets(tier: Tier) -> Vec<Set> {
         let small: Vec<String> = vec![String::new(), s.v.to_string(), format!("{}{}", s.v, s.c), format!("{0}{1}{0} {0}{1}{0}", s.v, s.c), format!("{1}{0}", s.v, s.c), format!("{0}{1}{0}{1}", s.v, s.c)];
         sets.push(Set { l, name: "add-seqs<=4 over 6 short titles".into(), menu: small, lo: 0, hi: 4, queries: queries.clone(), sizes: vec![0, 1, 2, 3], block: 40 });
         // (ii) cap reached: 11 / 12 records over a small menu, size 1 (cap 10) and 0
-        let cap_menu: Vec<String> = if tier == Tier::Thorough {
-            vec![format!("{0}{1}{0}", s.v, s.c), format!("{0}{1}", s.v, s.c), format!("{1}{0}", s.v, s.c)]
+        let three: Vec<String> = vec![format!("{0}{1}{0}", s.v, s.c), format!("{0}{1}", s.v, s.c), format!("{1}{0}", s.v, s.c)];
+        // queries with repeated grams (the same word start several times) next to a gram held by other records
+        let capq: Vec<String> = vec![
+            s.v.to_string(),
+            format!("{}{}", s.v, s.c),
+            format!("{0}{1}{0}", s.v, s.c),
+            format!("{1}{0}", s.v, s.c),
+            format!("{1}{0} {0}{1}{0}", s.v, s.c),
+            format!("{0} {0} {0} {1}{0}", s.v, s.c),
+            format!("{0}{1} {0}{1} {0}{1} {1}", s.v, s.c),
+        ];
+        if tier == Tier::Thorough {
+            sets.push(Set { l, name: "add-seqs 11..12 over 3 titles (cap)".into(), menu: three.clone(), lo: 11, hi: 12, queries: capq.clone(), sizes: vec![0, 1, 2], block: 200 });
         } else {
-            vec![format!("{0}{1}{0}", s.v, s.c), format!("{0}{1}", s.v, s.c)]
-        };
-        let capq: Vec<String> = vec![s.v.to_string(), format!("{}{}", s.v, s.c), format!("{0}{1}{0}", s.v, s.c), format!("{1}{0}", s.v, s.c), format!("{1}{0} {0}{1}{0}", s.v, s.c)];
-        sets.push(Set { l, name: format!("add-seqs 11..12 over {} titles (cap)", cap_menu.len()), menu: cap_menu, lo: 11, hi: 12, queries: capq, sizes: vec![0, 1, 2], block: 200 });
+            sets.push(Set { l, name: "add-seqs 11..12 over 2 titles (cap)".into(), menu: three[..2].to_vec(), lo: 11, hi: 12, queries: capq.clone(), sizes: vec![0, 1, 2], block: 200 });
+            if l == L::None || l == L::Ru {
+                sets.push(Set { l, name: "add-seqs 11 over 3 titles (cap)".into(), menu: three.clone(), lo: 11, hi: 11, queries: capq.clone(), sizes: vec![1], block: 400 });
+            }
+        }
         // (iii) word-level menu
         let lex = lex_strings(l);
         let mut wmenu: Vec<String> = lex.iter().take(8).cloned().collect();
